@@ -4,6 +4,7 @@ in a union position, string for enum, int for long, float for double, bytes for 
 fixed for decimal/duration, missing / reordered / duplicated record fields, map for record,
 out-of-range enum index, inconsistent fixed length) plus near-miss rejected values, through the
 datum writer, the single-object writer and the container writer."""
+import json
 import framework as fw
 from rng import Rng
 from sx import parse, show, hx, unhx, tag
@@ -41,7 +42,7 @@ def mutations(rng, t):
         k = tag(x)
         m = []
         if k == 'union':
-            m += [('bare-in-union', x[2]), ('union-index-oob', ['union', '99', x[2]])]
+            m += [('bare-record-in-union' if tag(x[2]) in ('record', 'null') else 'bare-in-union', x[2]), ('union-index-oob', ['union', '99', x[2]])]
         elif k == 'enum':
             m += [('string-for-enum', ['string', x[2]]), ('enum-index-oob', ['enum', '77', x[2]]),
                   ('enum-wrong-symbol', ['enum', x[1], hx('nope')])]
@@ -115,8 +116,11 @@ def _f64(t):
 def _isnan32(b):
     return (b & 0x7f800000) == 0x7f800000 and (b & 0x7fffff) != 0
 
-def same_info(a, d):
-    """does the decoded value d carry the same information as the (possibly non-canonical) input a?"""
+def same_info(a, d, drop=False):
+    """does the decoded value d carry the same information as the (possibly non-canonical) input a?
+    drop=True: a bare record in a union may additionally have lost fields (known finding F39)"""
+    if drop:
+        return _same_info_drop(a, d)
     ka, kd = tag(a), tag(d)
     if kd == 'union':
         if ka == 'union':
@@ -156,11 +160,69 @@ def same_info(a, d):
         return set(da) == set(dd) and all(same_info(da[k], dd[k]) for k in da)
     return show(a) == show(d)
 
+def _same_info_drop(a, d):
+    ka, kd = tag(a), tag(d)
+    if ka == 'record' and kd == 'union' and tag(d[2]) == 'record':
+        da = {e[1]: e[2] for e in a[1:]}
+        dd = {e[1]: e[2] for e in d[2][1:]}
+        return set(dd) <= set(da) and all(_same_info_drop(da[k], dd[k]) for k in dd)
+    if ka == 'union' and kd == 'union':
+        return a[1] == d[1] and _same_info_drop(a[2], d[2])
+    if ka == 'array' and kd == 'array':
+        return len(a) == len(d) and all(_same_info_drop(x, y) for x, y in zip(a[1:], d[1:]))
+    if ka in ('map', 'record') and kd in ('map', 'record'):
+        da = {e[1]: e[2] for e in a[1:]}
+        dd = {e[1]: e[2] for e in d[1:]}
+        return set(da) == set(dd) and all(_same_info_drop(da[k], dd[k]) for k in da)
+    return same_info(a, d)
+
+def sibling_union_case(r):
+    """a union of record variants with overlapping field names (optionally inside an array or a record field)
+    and a bare record value of one of the variants: the encoder has to try the variants in turn"""
+    nv = r.choice([2, 2, 3, 4])
+    pool = ['id', 'name', 'score', 'tag', 'n']
+    types = {'id': 'long', 'name': 'string', 'score': 'double', 'tag': 'bytes', 'n': 'int'}
+    vals = {'id': lambda: '(long %d)' % r.choice([0, 1, -1, 64, 1 << 40]), 'name': lambda: '(string %s)' % hx(r.choice(['', 'x', 'hello'])),
+            'score': lambda: '(double %d)' % r.choice([0, 4607182418800017408]), 'tag': lambda: '(bytes %s)' % hx(bytes([r.below(256)]).decode('latin1')) if False else '(bytes #%02x)' % r.below(256),
+            'n': lambda: '(int %d)' % r.choice([0, 7, -3])}
+    variants = []
+    seen = set()
+    for j in range(nv):
+        for _ in range(10):
+            k = r.choice([1, 2, 2, 3])
+            fs = ['id'] if r.chance(3, 4) else []
+            rest = [x for x in pool if x not in fs]
+            r.shuffle(rest)
+            fs = fs + rest[:k]
+            if tuple(fs) not in seen:
+                seen.add(tuple(fs))
+                break
+        variants.append(fs)
+    branches = [{'type': 'record', 'name': 'V%d' % j, 'fields': [{'name': f, 'type': types[f]} for f in fs]} for j, fs in enumerate(variants)]
+    if r.chance(1, 3):
+        branches.insert(r.below(len(branches) + 1), 'null')
+    pick = r.choice([j for j, b in enumerate(branches) if b != 'null'])
+    fs = [f['name'] for f in branches[pick]['fields']]
+    rec = '(record%s)' % ''.join(' (kv %s %s)' % (hx(f), vals[f]()) for f in fs)
+    shape = r.below(3)
+    if shape == 0:
+        return json.dumps(branches), rec
+    if shape == 1:
+        return json.dumps({'type': 'array', 'items': branches}), '(array %s (union %d %s))' % (rec, pick, rec)
+    return (json.dumps({'type': 'record', 'name': 'Outer', 'fields': [{'name': 'a', 'type': 'int'}, {'name': 'ev', 'type': branches}]}),
+            '(record (kv #61 (int 5)) (kv #6576 %s))' % rec)
+
 def gen_cases(tier, seed):
     rng = Rng(seed)
     n = 300 if tier == 'quick' else 12000
     lines, meta = [], {}
     k = 0
+    for i in range(n // 4):
+        r = rng.fork(1000000 + i)
+        st, v = sibling_union_case(r)
+        cid = 'v%d' % k; k += 1
+        lines.append('%s (vw %s %s)' % (cid, hx(st), v))
+        meta[cid] = (st, v, 'bare-record-in-union')
     for i in range(n):
         r = rng.fork(i)
         node, _ = gen_case_schema(r, max_depth=r.choice([1, 2, 2, 3]))
@@ -222,7 +284,10 @@ def evaluate(run, lines, meta, exe, drv):
             elif tag(cont) != 'ok' or tag(cread) != 'items' or len(cread) != 2 or tag(cread[1]) != 'ok' or canon(cread[1][1], True) != canon(dec[1], True):
                 bad = 'container writer/reader disagrees with the datum writer (%s / %s)' % (show(cont)[:40], show(cread)[:80])
             if bad:
-                run.fail(classify(name, st) or ('accepted-not-written:' + name), bad, case)
+                cls = classify(name, st)
+                if cls is None and tag(dec) == 'ok' and dec[2] == '#' and same_info(parse(v), dec[1], drop=True):
+                    cls = 'bare-record-encoded-as-earlier-variant'
+                run.fail(cls or ('accepted-not-written:' + name), bad, case)
             else:
                 if name != 'canonical':
                     run.nontrivial_case(st + v)
